@@ -171,7 +171,7 @@ def ess(ctx, A, be, ackey):
     outs = [k for k in ls.lh if k != mk_]
     okout = len(outs) == 1 and ls.next[outs[0]] is T.add(ls.lh[outs[0]], clamped) and ls.init[outs[0]] is T.ZERO
     ctx.check('C12.pairs.sum', A, 'sum', okout, expected='out := out + clamped P_k, out_0 = 0', found='; '.join(show(ev.t(ls.next[k]))[:120] for k in outs), sp=ls.sp, why='sum of the clamped pair sums')
-    init_min = T.ite(T.cmp('ge', T.app('len', rho_d), N(2)), T.add(index_term(rho_d, T.app('array', N(0))), index_term(rho_d, T.app('array', N(1)))), T.ZERO)
+    init_min = T.ite(T.icmp('ge', T.app('len', rho_d), N(2)), T.add(index_term(rho_d, T.app('array', N(0))), index_term(rho_d, T.app('array', N(1)))), T.ZERO)
     ctx.eq('C12.pairs.init', A, 'min-init', ls.init[mk_], init_min, sp=ls.sp, why='the clamp starts at the first pair sum (so the first pair is never reduced)')
     if okout:
         tau = T.sub(T.mul(N(2), ls.lx[outs[0]]), T.ONE)
@@ -191,7 +191,7 @@ def autocov(ctx, ackey, bodies):
     ps = [p['pat']['name'] for p in ba['params'] if p.get('pat', {}).get('k') == 'Binding']
     smp = S(ps[0]) if ps else S('sample')
     # rows <= 100 -> brute force else FFT, or the same decision written as rows > 100 -> FFT else brute force (integer comparison)
-    le100 = T.cmp('le', index_term(T.app('shape', smp), N(0)), N(100))
+    le100 = T.icmp('le', index_term(T.app('shape', smp), N(0)), N(100))
     br_bf = br_fft = None
     if ret[0] == 'ite' and ret[1] is le100:
         br_bf, br_fft = ret[2], ret[3]
